@@ -967,6 +967,13 @@ func ind(n int) string { return strings.Repeat("  ", n) }
 
 func (t *Tr) stmts(ss []ast.Stmt, d int) string {
 	if len(ss) == 0 {
+		if t.frag != nil && len(t.frag.yield) > 0 {
+			// end of a bounded fragment: its value is what the yielded locals hold here
+			if len(t.frag.yield) == 1 {
+				return ind(d) + t.wrapRet(t.frag.yield[0])
+			}
+			return ind(d) + t.wrapRet("("+strings.Join(t.frag.yield, ", ")+")")
+		}
 		return ind(d) + t.retNamed(token.NoPos)
 	}
 	s, rest := ss[0], ss[1:]
